@@ -152,3 +152,12 @@ Definition try_cells (r : option it) : list Z :=
       | Model.Collect.TOk _ => c_uninit
       end
   end.
+
+(* ==== MapValidBasic::drop_none (valid_iter.rs): `self.filter(T::not_none)` — the bare Filter node of Model/IterAudit.v.
+   At every point of `steps` calls of next(): the hint (0, Some(source items still to come)), the number of items plain
+   iteration still yields, the item; then the rest (observe_f).  `obs_drop_none_twice`: collected, then drop_none again. ==== *)
+Definition obs_drop_none (mask steps : nat) (s : it) : list Z := observe_f mask steps (drop_none s).
+Definition obs_drop_none_res (mask steps : nat) (r : res it) : list Z :=
+  match r with Ok s => obs_drop_none mask steps s | Panic k => c_panic k end.
+Definition obs_drop_none_twice (mask steps : nat) (s : it) : list Z :=
+  observe_f mask steps (drop_none (IList (f_drain (drop_none s)))).
